@@ -93,11 +93,13 @@ Definition cont1 : list cmd :=
     host without certificate paths), and restores exactly it. *)
 Example c11_example_restart :
   let st := exec_all fixed init_state hist1 in
-  snd (exec fixed st Restart) = st /\
-  map lr_name (list_services st) = [bs "wild"; bs "wsub"; bs "web"; bs "api"] /\
-  map lr_state (list_services st) = [bs "stopped"; bs "running"; bs "running"; bs "paused"] /\
+  st_services (snd (exec fixed st Restart)) = st_services st /\
+  st_disk (snd (exec fixed st Restart)) = st_disk st /\
+  st_probing (snd (exec fixed st Restart)) <> st_probing st (* same multiset, other order *) /\
+  map lr_name (list_services st) = [bs "api"; bs "wild"; bs "wsub"; bs "web"] /\
+  map lr_state (list_services st) = [bs "paused"; bs "stopped"; bs "running"; bs "running"] /\
   map lr_tls (list_services st) = [true; true; true; true].
-Proof. vm_compute. repeat split. Qed.
+Proof. vm_compute. repeat split. discriminate. Qed.
 
 Example c11_example_continuation :
   results fixed (exec_all fixed init_state (hist1 ++ [Restart])) cont1 =
@@ -105,6 +107,30 @@ Example c11_example_continuation :
   results fixed (exec_all fixed init_state hist1) cont1 =
     [Ok; Err ERolloutNotSet; Ok; Err EHostInUse; Ok; Ok; Ok; Ok; Ok].
 Proof. vm_compute. split; reflexivity. Qed.
+
+(** ** Empty rollout target sets
+
+    `rollout deploy` with no targets succeeds and leaves [s_rollout = Some []].
+    The model restores it as it was saved, so on the model the theorems above
+    hold for such histories too: *)
+Definition hist_empty_rollout : list cmd :=
+  [Deploy (bs "web") o_web t0 [tg "web-1:3000"]; RolloutDeploy (bs "web") []].
+
+Example c11_model_empty_rollout :
+  results fixed (exec_all fixed init_state hist_empty_rollout) [RolloutSet (bs "web") 50 []] = [Ok] /\
+  results fixed (exec_all fixed init_state (hist_empty_rollout ++ [Restart])) [RolloutSet (bs "web") 50 []] = [Ok].
+Proof. vm_compute. split; reflexivity. Qed.
+
+(** The code, however, restores a rollout balancer only when the saved list is
+    non-empty (service.go: `if len(ms.RolloutTargets) > 0`), so there the
+    second result is "rollout target not set": a model-vs-code gap on exactly
+    these histories, and a remaining instance of C11 failing in the code.
+    Histories in which every `rollout deploy` names at least one target never
+    reach such a state, and for them model and code restore alike: *)
+Theorem c11_rollout_nonempty : forall cs,
+  Forall rollout_deploy_nonempty cs ->
+  Forall (fun s => s_rollout s <> Some []) (st_services (exec_all fixed init_state cs)).
+Proof. exact rollout_nonempty. Qed.
 
 (** ** The pinned tree *)
 
@@ -148,6 +174,7 @@ Print Assumptions c11_serve_equal.
 Print Assumptions c11_list_equal.
 Print Assumptions c11_continuation.
 Print Assumptions c11_restart_anywhere.
+Print Assumptions c11_rollout_nonempty.
 Print Assumptions c11_refuted_pinned_D5.
 Print Assumptions c11_refuted_pinned_D6.
 Print Assumptions c11_refuted_pinned_D17.
